@@ -318,6 +318,10 @@ Definition skel_floor_divide (signed : bool) (int_code : Z) : skel :=
     [("Less", [[0]]); ("Greater", [[0]]); ("Equal", []); ("Mod", [[0]]); ("Cast", [[9]]); ("And", []); ("Cast", [[int_code]]);
      ("Div", []); ("Sub", [])]
   else [("Div", [])].
+(* aten_div_mode on integer tensors (semantics in F32.v): Cast, Cast, Div, Floor | Abs Floor Sign Mul, CastLike *)
+Definition skel_div_mode_int (floor_mode : bool) : skel :=
+  if floor_mode then [("Cast", [[1]]); ("Cast", [[1]]); ("Div", []); ("Floor", []); ("CastLike", [])]
+  else [("Cast", [[1]]); ("Cast", [[1]]); ("Div", []); ("Abs", []); ("Floor", []); ("Sign", []); ("Mul", []); ("CastLike", [])].
 Definition aten_remainder (a b : Z) : Z := onnx_mod a b.
 Definition skel_remainder : skel := [("Mod", [[0]])].
 Definition aten_fmod (a b : Z) : Z := onnx_fmod a b.
